@@ -195,7 +195,40 @@ def s_derive(eng, path, argv, callee):
     return o
 
 
+def s_u64_checked_add(eng, path, argv, callee):
+    a, b = path.deref(argv[0]).scalar(), path.deref(argv[1]).scalar()
+    pay = Obj('p%d' % next(Obj.cnt))
+    pay.fields[0] = const_obj(a + b)
+    o = enum_obj(z3.If(a + b < 2 ** 64, z3.IntVal(1), z3.IntVal(0)))
+    o.fields[('as', 'Some')] = pay
+    return o
+
+
+def s_u64_checked_sub(eng, path, argv, callee):
+    a, b = path.deref(argv[0]).scalar(), path.deref(argv[1]).scalar()
+    pay = Obj('p%d' % next(Obj.cnt))
+    pay.fields[0] = const_obj(a - b)
+    o = enum_obj(z3.If(a >= b, z3.IntVal(1), z3.IntVal(0)))
+    o.fields[('as', 'Some')] = pay
+    return o
+
+
+def s_ok_or(eng, path, argv, callee):
+    """Option::ok_or / ok_or_else: Some(v) -> Ok(v), None -> Err(_)"""
+    o = path.deref(argv[0])
+    d = _two(path, o)
+    pay = Obj('p%d' % next(Obj.cnt))
+    pay.fields[0] = o.get(('as', 'Some')).get(0)
+    r = enum_obj(z3.If(d == 1, z3.IntVal(0), z3.IntVal(1)))
+    r.fields[('as', 'Ok')] = pay
+    r.fields[('as', 'Err')] = opaque_obj('ok_or_err')
+    return r
+
+
 BASE = [
+    (r'<impl u64>::checked_add$', s_u64_checked_add),
+    (r'<impl u64>::checked_sub$', s_u64_checked_sub),
+    (r'Option::<.*>::ok_or_else::<|Option::<.*>::ok_or::<', s_ok_or),
     (r'Item::<.*>::load$', s_item_load),
     (r'Item::<.*>::save$', s_item_save),
     (r'Map::<.*>::load$', s_map_load),
